@@ -81,12 +81,19 @@ static void work_path(long lo, long hi, struct res *r, void *arg) {
     for (long x = lo; x < hi; x++) {
         uint64_t ps = 0x9A7 + (uint64_t)x * 31 + (uint64_t)G_seed;
         rseed s; for (int i = 0; i < 19; i++) s.secret[i] = (uint8_t)prng(&ps); s.secret[18] &= 0x3F; s.birthday = (x % 3 == 0) ? 512 + (prng(&ps) & 511) : (prng(&ps) & 1023); s.features = prng(&ps) & 23;
+        if (x % 16 == 1) s.birthday = 0; else if (x % 16 == 9) s.birthday = 1023;      /* with the clock shift below: the first month after the range, and the last one of a later range */
         unsigned coin = (unsigned)(prng(&ps) & 2047);
-        char rep[160], h[40]; hex(s.secret, 19, h); sprintf(rep, "case %s %u %u %u 32", h, s.birthday, s.features, coin);
+        extern uint64_t E_create_clock_shift;
+        uint64_t shift = (x & 3) == 1 ? 1024 * R_STEP : (x & 3) == 2 ? 2 * 1024 * R_STEP : (x & 7) == 3 ? (uint64_t)(3 + x % 5) * 1024 * R_STEP : 0;
+        char rep[200], h[40]; hex(s.secret, 19, h); sprintf(rep, "case %s %u %u %u 32 %llu", h, s.birthday, s.features, coin, (unsigned long long)shift);
         polyseed_data *d0 = seed_from_ref(&s); if (!d0) { res_viol(r, "c04:setup", rep, "load failed"); continue; }
         r->cases++;
         int bad = keygen_case(d0, &s, coin, 32, 0, r, rep, "path-load");
+        /* the creation path also under clocks after the documented range: exactly the first month past it (index 1024 -> 0), one or two
+         * whole ranges later (the second is more than 2^32 seconds after the epoch), and the last month of the range */
+        E_create_clock_shift = shift;
         polyseed_data *d1 = seed_via_create(&s);
+        E_create_clock_shift = 0;
         if (d1) { r->cases++; bad |= keygen_case(d1, &s, coin, 32, 0, r, rep, "path-create"); polyseed_free(d1); }
         for (int li = 0; li < R_NLANG && !bad; li++) {
             polyseed_str ph; polyseed_encode(d0, polyseed_get_lang(li), (polyseed_coin)coin, ph);
@@ -140,6 +147,7 @@ int main(int argc, char **argv) {
         polyseed_data *d = seed_from_ref(&s); if (!d) { printf("cannot load\n"); return 1; }
         keygen_case(d, &s, coin, ksz, 1, r, "", "args");
         char h[130]; hex(E.kdf.salt, 32, h); printf("pwlen=%zu saltlen=%zu iters=%llu keylen=%zu salt=%s\n", E.kdf.pwlen, E.kdf.saltlen, (unsigned long long)E.kdf.iters, E.kdf.keylen, h);
+        { extern uint64_t E_create_clock_shift; if (a + 6 < argc) E_create_clock_shift = strtoull(argv[a + 6], NULL, 10); }
         polyseed_data *d1 = seed_via_create(&s); if (d1) keygen_case(d1, &s, coin, ksz, 0, r, "", "path-create");
         for (int i = 0; i < r->nviol; i++) printf("REPRODUCED %s: %s\n", r->v[i].key, r->v[i].msg);
         return r->nviol ? 1 : 0;
